@@ -3,3 +3,4 @@
    required by its short name, and the other files use [Require Import Verif.Export.Model]. *)
 Require Verif.Export.Model.
 Definition check_val := Verif.Export.Model.check_val.
+Definition diag_val := Verif.Export.Model.diag_val.
